@@ -259,8 +259,37 @@ def _whole(term: str, cont: str) -> bool:
 
 
 def _enumerates(term: str, cont: str) -> bool:
+    """the term yields (index, element) pairs of the whole container: ``enumerate(cont)``, ``zip(range(len(cont)), cont)``,
+    ``zip(itertools.count(), cont)``."""
     n = H.P(term)
-    return isinstance(n, ast.Call) and H.dotted(n.func) == "enumerate" and len(n.args) == 1 and not n.keywords and _whole(H.text(n.args[0]), cont)
+    if not isinstance(n, ast.Call) or n.keywords:
+        return False
+    d = H.dotted(n.func)
+    if d == "enumerate" and len(n.args) == 1:
+        return _whole(H.text(n.args[0]), cont)
+    if d == "zip" and len(n.args) == 2 and _whole(H.text(n.args[1]), cont):
+        i = n.args[0]
+        if isinstance(i, ast.Call) and not i.keywords:
+            di = H.dotted(i.func) or ""
+            if di.rsplit(".", 1)[-1] == "count" and (not i.args or (len(i.args) == 1 and H.const_of(H.text(i.args[0])) == 0)):
+                return True
+            if di == "range" and len(i.args) == 1 and isinstance(i.args[0], ast.Call) and H.dotted(i.args[0].func) == "len" and len(i.args[0].args) == 1:
+                return _whole(H.text(i.args[0].args[0]), cont)
+    return False
+
+
+def _lowered_view(term: str, cont: str) -> bool:
+    """the term is the list of the container's elements lower-cased, position by position:
+    ``[x.lower() for x in cont]`` / ``list(map(str.lower, cont))``."""
+    n = H.P(term)
+    if isinstance(n, ast.Call) and H.dotted(n.func) in ("list", "tuple") and len(n.args) == 1 and not n.keywords:
+        n = n.args[0]
+    if isinstance(n, (ast.ListComp, ast.GeneratorExp)) and len(n.generators) == 1:
+        g = n.generators[0]
+        return isinstance(g.target, ast.Name) and not g.ifs and _whole(H.text(g.iter), cont) and lower_base(H.text(n.elt)) == g.target.id
+    if isinstance(n, ast.Call) and H.dotted(n.func) == "map" and len(n.args) == 2 and H.dotted(n.args[0]) in ("str.lower", "str.casefold"):
+        return _whole(H.text(n.args[1]), cont)
+    return False
 
 
 def _filter_keys(value: str, cont: str) -> set[str] | None:
@@ -331,6 +360,43 @@ def _slice_statement(node: ast.AST) -> bool:
     return any(isinstance(t_, ast.Subscript) and isinstance(t_.slice, ast.Slice) for t_ in tgs if t_ is not None)
 
 
+def _conjuncts(c: ast.AST) -> list[ast.AST]:
+    if isinstance(c, ast.BoolOp) and isinstance(c.op, ast.And):
+        return [y for x in c.values for y in _conjuncts(x)]
+    return [c]
+
+
+def _search_keys(term: str, cont: str) -> set[str]:
+    """keys K when the term names an element of the container found by a search on its lower-cased form:
+    ``next(h for h in cont if h.lower() == K)`` or an item of the selection ``[h for h in cont if h.lower() == K]`` /
+    ``list(h for h in cont if ...)`` (any index: every selected element satisfies the filter)."""
+    n = H.P(term)
+    comp = None
+    if isinstance(n, ast.Call) and H.dotted(n.func) == "next" and n.args and isinstance(n.args[0], ast.GeneratorExp):
+        comp = n.args[0]
+    elif isinstance(n, ast.Subscript) and not isinstance(n.slice, ast.Slice):
+        v = n.value
+        if isinstance(v, ast.Call) and H.dotted(v.func) in ("list", "tuple") and len(v.args) == 1 and not v.keywords:
+            v = v.args[0]
+        if isinstance(v, (ast.ListComp, ast.GeneratorExp)):
+            comp = v
+    keys: set[str] = set()
+    if comp is None or len(comp.generators) != 1:
+        return keys
+    g = comp.generators[0]
+    if not (isinstance(g.target, ast.Name) and _whole(H.text(g.iter), cont) and H.text(comp.elt) == g.target.id):
+        return keys
+    for c0 in g.ifs:
+        for c in _conjuncts(c0):
+            if isinstance(c, ast.Compare) and len(c.ops) == 1 and isinstance(c.ops[0], ast.Eq):
+                a, b = H.text(c.left), H.text(c.comparators[0])
+                if lower_base(a) == g.target.id and not _mentions(b, g.target.id):
+                    keys.add(b)
+                elif lower_base(b) == g.target.id and not _mentions(a, g.target.id):
+                    keys.add(a)
+    return keys
+
+
 def headerset_removal_rule(ctx: Ctx, rule: str) -> int:
     """the other half of the pairing: an element leaves the ordered list only together with *its own* lower-cased key
     leaving the lower-case set.  On every path of the inlined call graph of every public method, each change of the
@@ -355,7 +421,7 @@ def headerset_removal_rule(ctx: Ctx, rule: str) -> int:
             d = sites[id(ev[-2])] = {"node": ev[-2], "fi": ev[-1], "op": ev[2], "ok": True, "why": [], "seen": []}
         return d
 
-    def element_of_index(i: str) -> tuple[set[str], set[str]]:
+    def element_of_index(i: str, changed: bool = False) -> tuple[set[str], set[str]]:
         """(terms naming the element at index term i, keys its lower-cased form is known to equal)."""
         names = {H.text(H.P(f"({L})[{i}]"))}
         keys: set[str] = set()
@@ -378,22 +444,14 @@ def headerset_removal_rule(ctx: Ctx, rule: str) -> int:
                             keys.add(a)
         if isinstance(n, ast.Call) and isinstance(n.func, ast.Attribute) and n.func.attr == "index" and H.text(n.func.value) == L and n.args:
             names.add(H.text(n.args[0]))
+        if isinstance(n, ast.Call) and isinstance(n.func, ast.Attribute) and n.func.attr == "index" and len(n.args) == 1 and not changed and _lowered_view(H.text(n.func.value), L):
+            keys.add(H.text(n.args[0]))  # position of K among the lower-cased elements: the element there lower-cases to K
         return names, keys
 
     def known_keys(names: set[str], st) -> set[str]:
         keys = set()
-        for x in names:  # an element found by a search: next(h for h in list if h.lower() == K)
-            n = H.P(x)
-            if isinstance(n, ast.Call) and H.dotted(n.func) == "next" and n.args and isinstance(n.args[0], ast.GeneratorExp) and len(n.args[0].generators) == 1:
-                g = n.args[0].generators[0]
-                if isinstance(g.target, ast.Name) and _whole(H.text(g.iter), L) and H.text(n.args[0].elt) == g.target.id:
-                    for c in g.ifs:
-                        if isinstance(c, ast.Compare) and len(c.ops) == 1 and isinstance(c.ops[0], ast.Eq):
-                            a, b = H.text(c.left), H.text(c.comparators[0])
-                            if lower_base(a) == g.target.id and not _mentions(b, g.target.id):
-                                keys.add(b)
-                            elif lower_base(b) == g.target.id and not _mentions(a, g.target.id):
-                                keys.add(a)
+        for x in names:  # an element found by a search: next(h for h in list if h.lower() == K) / [h for h in list if ...][0]
+            keys |= _search_keys(x, L)
         for k, v in st.facts.items():
             if v is not True:
                 continue
@@ -421,12 +479,12 @@ def headerset_removal_rule(ctx: Ctx, rule: str) -> int:
             if op == "pop":
                 names = {H.text(H.P(f"({L}).pop({', '.join(args)})"))}
                 if args:
-                    n2, keys = element_of_index(args[0])
+                    n2, keys = element_of_index(args[0], changed)
                     names |= n2
             elif op == "remove" and args:
                 names = {args[0]}
             elif op in ("__delitem__", "__setitem__") and args and not _slice_statement(ev[-2]):
-                names, keys = element_of_index(args[0])
+                names, keys = element_of_index(args[0], changed)
             elif op in ("clear", "__delitem__", "__imul__"):
                 names = None
             elif op in ("store", "__setitem__") and args:
@@ -443,10 +501,12 @@ def headerset_removal_rule(ctx: Ctx, rule: str) -> int:
                 return (True, stale, ldrops, sdrops)  # growth / reordering: nothing leaves the list
             d = site(ev)
             if names is None:
-                drop = ("*", frozenset(), frozenset(), id(ev[-2]))
+                drop = ("*", frozenset(), frozenset(), id(ev[-2]), None)
             else:
                 names = {x for x in names if not (x.startswith(f"{L}[") and x[len(L) + 1 : -1] in stale)}
-                drop = ("e", frozenset(names), frozenset(keys | known_keys(names, st)), id(ev[-2]))
+                # ``list[i] = new``: the element that leaves is replaced by ``new`` (whose key stays / enters the set)
+                new = args[-1] if op == "__setitem__" and len(args) >= 2 else None
+                drop = ("e", frozenset(names), frozenset(keys | known_keys(names, st)), id(ev[-2]), new)
             return (True, stale, ldrops | {drop}, sdrops)
         if ev[0] == "op" and ev[1] == SET:
             op, args = ev[2], ev[3]
@@ -473,8 +533,18 @@ def headerset_removal_rule(ctx: Ctx, rule: str) -> int:
             return (changed, stale, ldrops, sdrops | {(k, base, frozenset(eq))})
         return a
 
-    def matched(drop, sdrops) -> bool:
-        kind, names, keys, _ = drop
+    def matched(drop, sdrops, st) -> bool:
+        kind, names, keys, _, new = drop
+        if new is not None:
+            # the element is overwritten by one the path has established to have the same lower-cased form: the key
+            # stays in the set for the new element (names read at an index after the list changed are not the old element)
+            live = {x for x in names if not (x.startswith(f"{L}[") and x[len(L) + 1 : -1] in st.auto[1])}
+            for f, v in st.facts.items():
+                sides = _eq_sides(f) if v is True else None
+                if sides is not None and {lower_base(sides[0]), lower_base(sides[1])} - {None} and (
+                    (lower_base(sides[0]) in live and lower_base(sides[1]) == new) or (lower_base(sides[1]) in live and lower_base(sides[0]) == new)
+                ):
+                    return True
         for k, base, eq in sdrops:
             if kind == "*":
                 if k == "*":
@@ -492,7 +562,7 @@ def headerset_removal_rule(ctx: Ctx, rule: str) -> int:
             _, _, ldrops, sdrops = o.st.auto
             for drop in ldrops:
                 d = sites[drop[3]]
-                if matched(drop, sdrops):
+                if matched(drop, sdrops, o.st):
                     continue
                 d["ok"] = False
                 what = "the whole list is emptied / rebuilt" if drop[0] == "*" else f"element {sorted(drop[1]) or '(filtered)'} (lower-cased form known equal to {sorted(drop[2]) or 'nothing'}) leaves the list"
